@@ -366,3 +366,19 @@ mod tests {
         );
     }
 }
+
+#[cfg(feature = "verif-hooks")]
+#[doc(hidden)]
+#[allow(missing_docs)]
+pub mod verif_hooks {
+    use super::*;
+
+    pub fn filter<'a>(
+        fields: &mut Vec<&'a Field>,
+        fragments: &'a HashMap<Name, Positioned<FragmentDefinition>>,
+        selection_set: &'a SelectionSet,
+        name: &str,
+    ) {
+        super::filter(fields, fragments, selection_set, name)
+    }
+}
